@@ -5,6 +5,7 @@ from .C09 import const_name
 import itertools
 
 REQUIRES = ['expression']
+USES_QUERIES = True
 EXPLANATION = (
     "CODEC/TABLE/GUARD rules. For Request, Event and Response the writer (From<T> for Envelope) is parsed as a builder chain "
     "subject + add_assertion*/add_optional_assertion/add_assertion_if calls, giving a table field-path -> {subject tag | predicate}; the "
@@ -14,10 +15,10 @@ EXPLANATION = (
     "FF->Err, TT->Err, TF->Ok(success), FT->Ok(failure). C18.3: with an expected function, Ok is reachable only when the parsed function "
     "equals it (valuation over expected.is_some, equal). C18.4: each parser's subject goes through try_into_expected_tagged_value with the "
     "writer's tag. C18.5: early failure: the writer's 'Unknown' known value is the very constant the reader compares with; any other known "
-    "value is an Err. Function/Parameter: Known <-> unsigned, Named <-> text under the same tag. C18.6: names that may be stored as a static or an owned string (the parser always produces the owned form) compare and hash by their text, never by storage variant. C18.7: a field written conditionally (add_assertion_if) is written iff !is_empty(that very field), the complement of the reader's empty default. Does not decide value-level round-trip of "
+    "value is an Err. Function/Parameter: Known <-> unsigned, Named <-> text under the same tag. C18.6: names that may be stored as a static or an owned string (the parser always produces the owned form) compare and hash by their text, never by storage variant. C18.9: a field written conditionally (add_assertion_if) is written iff !is_empty(that very field), the complement of the reader's empty default. C18.10: the well-known Function / Parameter / KnownValue constants have pairwise distinct codes and names. C18.11: Function / Parameter equality by variant pair (mixed -> false, Known by code, Named by name). Does not decide value-level round-trip of "
     "Date, ARID or arbitrary parameter values (dcbor / bc-components).")
 TRUSTED = ['CBOR::try_into_expected_tagged_value fails unless the tag matches', 'ARID/Date/String CBOR conversions round-trip (dependencies)']
-FLOORS = {'C18.1': 10, 'C18.2': 1, 'C18.3': 1, 'C18.4': 3, 'C18.5': 1, 'C18.6': 2, 'C18.7': 2}
+FLOORS = {'C18.1': 10, 'C18.2': 1, 'C18.3': 1, 'C18.4': 3, 'C18.5': 1, 'C18.6': 2, 'C18.9': 2, 'C18.10': 3, 'C18.11': 2}
 P1 = ('param', 1)
 ADDERS = {'add_assertion': (1, 2, 'always'), 'add_optional_assertion': (1, 2, 'optional'), 'add_assertion_if': (2, 3, 'conditional'),
           'add_assertion_envelope': (None, 1, 'always')}
@@ -149,7 +150,7 @@ def check_pair(ctx, tyname, self_suffix):
                 else:
                     ctx.fail('C18.1', ctx.site(w, bi, si), '%s writer has an exit that does not write %s although no test of that field leads there: the field is lost on that path' % (tyname, '.'.join(path)),
                              key='C18.1|%s|dropped|%s' % (tyname, '.'.join(path)))
-    # C18.7 conditional writes: a field that is written only under a condition must be left out exactly when it has the value the
+    # C18.9 conditional writes: a field that is written only under a condition must be left out exactly when it has the value the
     # reader fills in for an absent assertion (the empty default): the condition is !is_empty(field) of the very field written,
     # with nothing (trim, len comparison with another bound, another field) in between
     def bare_field(x):
@@ -169,10 +170,10 @@ def check_pair(ctx, tyname, self_suffix):
         inner = strip_sites(cond[2]) if neg else cond
         ie = inner[2][0] if inner[0] == 'call' and call_name(inner) == 'is_empty' and len(inner[2]) == 1 else None
         if neg and ie is not None and vp is not None and bare_field(ie) == vp:
-            ctx.ok('C18.7', ctx.site(w), '%s.%s is written iff it is not empty (the reader\'s default for the absent assertion)' % (tyname, '.'.join(vp)), sample=fmt(cond))
+            ctx.ok('C18.9', ctx.site(w), '%s.%s is written iff it is not empty (the reader\'s default for the absent assertion)' % (tyname, '.'.join(vp)), sample=fmt(cond))
         else:
-            ctx.fail('C18.7', ctx.site(w), '%s.%s is written under the condition %s, which is not "the field itself is not empty": some non-default values are dropped or '
-                     'the default is written' % (tyname, '.'.join(vp) if vp else '?', fmt(cond)), key='C18.7|%s|%s' % (tyname, '.'.join(vp) if vp else '?'))
+            ctx.fail('C18.9', ctx.site(w), '%s.%s is written under the condition %s, which is not "the field itself is not empty": some non-default values are dropped or '
+                     'the default is written' % (tyname, '.'.join(vp) if vp else '?', fmt(cond)), key='C18.9|%s|%s' % (tyname, '.'.join(vp) if vp else '?'))
     # reader: the impl that builds the struct
     reader = None
     rr = {}
@@ -437,3 +438,58 @@ def check(ctx):
     # C18.8 error discipline: no error of a fallible call is turned into "absent / false / default" outside the reviewed table
     from .. import errflow
     errflow.check(ctx, 'C18.8', ['src/extension/expressions/request.rs', 'src/extension/expressions/response.rs', 'src/extension/expressions/event.rs', 'src/extension/expressions/expression.rs', 'src/extension/expressions/function.rs', 'src/extension/expressions/parameter.rs'], 'expression family')
+    # C18.10: the well-known function / parameter / known-value constants are pairwise distinct values (a request naming one of two
+    # constants that share a code is accepted where the other is expected; RESULT and ERROR sharing a code would merge the two
+    # response forms)
+    from .. import accessors
+    accessors.check_constant_registry(ctx, 'C18.10')
+    # C18.11: Function and Parameter equality, per pair of variants: a numeric (Known) and a named item are never equal; two Known compare
+    # their codes, two Named their names (so "a function other than the expected one is rejected" cannot be bypassed by a named function
+    # whose text happens to be the digits of a code)
+    F = ctx.F
+    P1_, P2_ = ('param', 1), ('param', 2)
+    for tyname in ('Function', 'Parameter'):
+        bs = [b for b in F.trait_impl('PartialEq', tyname, 'eq') if b.impl_self and b.impl_self.endswith('::' + tyname)]
+        if len(bs) != 1:
+            ctx.lost('C18.11', 'PartialEq for ' + tyname)
+            continue
+        b = bs[0]
+        tb = TermBuilder(F, b)
+        adt = [a for a in F.adts if a['path'].endswith('::' + tyname.lower() + '::' + tyname)]
+        variants = [v['name'] for v in adt[0]['variants']] if adt else []
+        def is_d(x, p):
+            x = strip_sites(x)
+            if x[0] != 'discr':
+                return False
+            y = strip_sites(x[1])
+            while y[0] in ('deref',) or (y[0] == 'call' and call_name(y) in ('deref', 'borrow') and len(y[2]) == 1):
+                y = strip_sites(y[1] if y[0] == 'deref' else y[2][0])
+            return y == p
+        d1 = find_terms(b, tb, lambda x: is_d(x, P1_))
+        d2 = find_terms(b, tb, lambda x: is_d(x, P2_))
+        if len(variants) != 2 or len(d1) != 1 or len(d2) != 1:
+            ctx.fail('C18.11', ctx.site(b), '%s equality does not decide on the variants of both operands (Known vs Named must differ, like variants compare their own payload): %s'
+                     % (tyname, fmt(strip_sites(tb.return_term()))[:200]), key='C18.11|form|' + tyname, rule='FLOW/IDIOM-UNKNOWN')
+            continue
+        bad = []
+        for i, vi in enumerate(variants):
+            for j, vj in enumerate(variants):
+                outs = [strip_sites(detry(t)) for bi, si, t in ret_values_under(b, tb, {d1[0]: i, d2[0]: j})]
+                if i != j:
+                    if not outs or any(o != ('bool', False) for o in outs):
+                        bad.append('%s vs %s -> %s' % (vi, vj, [fmt(o)[:60] for o in outs]))
+                else:
+                    ok = len(outs) == 1 and outs[0][0] == 'call' and call_name(outs[0]) == 'eq' and len(outs[0][2]) == 2
+                    if ok:
+                        l, r = (strip_sites(x) for x in outs[0][2])
+                        def fld(x, p):
+                            while x[0] == 'call' and call_name(x) in ('deref', 'borrow', 'as_ref') and len(x[2]) == 1:
+                                x = strip_sites(x[2][0])
+                            return x[0] == 'vfield' and strip_sites(x[1]) == p and x[2] == vi and x[3] == '0'
+                        ok = (fld(l, P1_) and fld(r, P2_)) or (fld(l, P2_) and fld(r, P1_))
+                    if not ok:
+                        bad.append('%s vs %s -> %s' % (vi, vj, [fmt(o)[:80] for o in outs]))
+        if bad:
+            ctx.fail('C18.11', ctx.site(b), '%s equality table unexpected: %s' % (tyname, bad), key='C18.11|table|' + tyname)
+        else:
+            ctx.ok('C18.11', ctx.site(b), '%s equality: different variants -> false; Known compares the codes, Named the names (4 variant pairs)' % tyname)
